@@ -7,8 +7,8 @@ import (
 	"reflect"
 	"sort"
 	"strings"
-	"sync"
 	"testing"
+	"time"
 	"unicode"
 
 	"pgregory.net/rapid"
@@ -582,33 +582,56 @@ func runC12Eval(tb report.TB, rep *report.Reporter, c c12EvalCase) {
 	// ---- two requests at once on the same bug (the web UI): one closes or re-opens it, the other comments. Both
 	// are acknowledged; what the queries use afterwards describes the bug after both.
 	if c.Seed%2 == 0 {
-		stop := lockDelays(c.Seed)
 		for round := 0; round < 8; round++ {
 			id := allIds[(int(c.Seed%7)+round)%len(allIds)]
-			var wg sync.WaitGroup
-			for g := 0; g < 2; g++ {
-				wg.Add(1)
-				go func(g int) {
-					defer wg.Done()
-					bc, err := rc.Bugs().Resolve(entity.Id(id))
-					if err != nil {
-						return
-					}
-					if g == 0 {
-						if bc.Snapshot().Status.String() == "open" {
-							_, _ = bc.CloseRaw(authors[0], int64(7000+round), nil)
-						} else {
-							_, _ = bc.OpenRaw(authors[0], int64(7000+round), nil)
-						}
-					} else {
-						_, _, _ = bc.AddCommentRaw(authors[len(authors)-1], int64(7100+round), "said at the same moment", nil, nil)
-					}
-					_ = bc.CommitAsNeeded()
-				}(g)
+			// the schedule is owned: the first request is parked before its K-th acquisition of a cache mutex while
+			// the second one runs (or waits for a lock the first holds), then goes on
+			mark, parked, release, stop := parkAt((int(c.Seed%25) + round*3) % 25)
+			first, second := make(chan struct{}), make(chan struct{})
+			go func() {
+				defer close(first)
+				mark()
+				bc, err := rc.Bugs().Resolve(entity.Id(id))
+				if err != nil {
+					return
+				}
+				if bc.Snapshot().Status.String() == "open" {
+					_, _ = bc.CloseRaw(authors[0], int64(7000+round), nil)
+				} else {
+					_, _ = bc.OpenRaw(authors[0], int64(7000+round), nil)
+				}
+				_ = bc.CommitAsNeeded()
+			}()
+			select {
+			case <-parked:
+			case <-first:
+			case <-time.After(20 * time.Second):
 			}
-			wg.Wait()
+			go func() {
+				defer close(second)
+				bc, err := rc.Bugs().Resolve(entity.Id(id))
+				if err != nil {
+					return
+				}
+				_, _, _ = bc.AddCommentRaw(authors[len(authors)-1], int64(7100+round), "said at the same moment", nil, nil)
+				_ = bc.CommitAsNeeded()
+			}()
+			select {
+			case <-second:
+			case <-time.After(150 * time.Millisecond):
+			}
+			release()
+			for _, ch := range []chan struct{}{first, second} {
+				select {
+				case <-ch:
+				case <-time.After(30 * time.Second):
+					stop()
+					fail("simultaneous-requests-never-return", fmt.Sprintf("round %d on bug %s", round, id))
+					return
+				}
+			}
+			stop()
 		}
-		stop()
 	}
 	// ---- reference population, read from git without the cache
 	idents := map[string]refIdent{}
